@@ -214,7 +214,6 @@ PROPS = {
         "assumptions": ["regions in bounds of the chunk"],
     },
     "C20": {
-        "claimed": False,
         "lean_props": ["ZarrsModel.Props.C20"],
         "harness": "c20",
         "rule": "C01 configurations; after a short history, for each of 2-5 write operations (all six kinds) and reads: the operation is run through a fault-injecting store wrapper at concurrency 1; first "
